@@ -195,6 +195,17 @@ def ite(ctx, c, a, b):
     raise CannotEncode("cannot merge %r and %r" % (type(a), type(b)))
 
 
+def fold_bool(c):
+    """a condition over constants (concrete-input validation runs) becomes a Python bool"""
+    if isinstance(c, SBool):
+        f = z3.simplify(c.t)
+        if z3.is_true(f):
+            return True
+        if z3.is_false(f):
+            return False
+    return c
+
+
 class Return(Exception):
     def __init__(self, v):
         self.v = v
@@ -236,7 +247,7 @@ class Interp:
             elif isinstance(st, ast.Return):
                 raise Return(self.expr(st.value, env) if st.value is not None else None)
             elif isinstance(st, ast.If):
-                c = self.expr(st.test, env)
+                c = fold_bool(self.expr(st.test, env))
                 rest = stmts[i + 1:]
                 if isinstance(c, SBool):
                     # both branches, each followed by the rest of the block; merge the returned values
@@ -319,7 +330,7 @@ class Interp:
                 r = (r and v) if isinstance(e.op, ast.And) else (r or v)
             return r
         if isinstance(e, ast.IfExp):
-            c = self.expr(e.test, env)
+            c = fold_bool(self.expr(e.test, env))
             if isinstance(c, SBool):
                 return ite(ctx, c.t, self.expr(e.body, env), self.expr(e.orelse, env))
             return self.expr(e.body, env) if c else self.expr(e.orelse, env)
@@ -329,6 +340,9 @@ class Interp:
             if is_sym(base):
                 raise CannotEncode("subscript of a symbolic value")
             if isinstance(idx, SInt):
+                folded = z3.simplify(idx.t)
+                if z3.is_bv_value(folded):
+                    return base[folded.as_signed_long()]     # the index term is a constant (concrete-input validation runs)
                 key = ast.unparse(e.slice)
                 if key not in self.hints:
                     raise CannotEncode("symbolic index %s without a hint" % key)
@@ -360,6 +374,26 @@ class Interp:
                 # Python: min(a, b) -> b if b < a else a ; max(a, b) -> b if b > a else a
                 c = compare(ctx, ast.Lt() if fn is min else ast.Gt(), b, a)
                 return ite(ctx, c.t, b, a)
+            if fn is round and len(args) == 1:
+                (x,) = args
+                if isinstance(x, SFloat):
+                    # round(float) -> int, ties to even: exactly fp.to_sbv with roundNearestTiesToEven
+                    ctx.need("round(float): finite and inside the bit-vector width", z3.And(z3.Not(z3.fpIsNaN(x.t)), z3.Not(z3.fpIsInf(x.t)), z3.fpLT(x.t, z3.FPVal(2.0 ** (W - 2), F64)), z3.fpGT(x.t, z3.FPVal(-(2.0 ** (W - 2)), F64))))
+                    return SInt(z3.fpToSBV(RNE, x.t, z3.BitVecSort(W)))
+                return x if isinstance(x, SInt) else round(x)
+            if fn is abs and len(args) == 1:
+                (x,) = args
+                if isinstance(x, SFloat):
+                    return SFloat(z3.fpAbs(x.t))
+                if isinstance(x, SInt):
+                    ctx.need("abs(int) does not overflow", x.t != bv(-(2 ** (W - 1))))
+                    return SInt(z3.If(x.t < bv(0), -x.t, x.t))
+                return abs(x)
+            if getattr(fn, "__module__", "") == "math" and fn.__name__ in ("floor", "ceil", "trunc") and len(args) == 1 and isinstance(args[0], SFloat):
+                x = args[0]
+                mode = {"floor": z3.RTN(), "ceil": z3.RTP(), "trunc": RTZ}[fn.__name__]
+                ctx.need("math.%s(float): finite and inside the bit-vector width" % fn.__name__, z3.And(z3.Not(z3.fpIsNaN(x.t)), z3.Not(z3.fpIsInf(x.t)), z3.fpLT(x.t, z3.FPVal(2.0 ** (W - 2), F64)), z3.fpGT(x.t, z3.FPVal(-(2.0 ** (W - 2)), F64))))
+                return SInt(z3.fpToSBV(mode, x.t, z3.BitVecSort(W)))
             if fn is isinstance:
                 if is_sym(args[0]):
                     raise CannotEncode("isinstance of a symbolic value")
@@ -574,18 +608,18 @@ def job_convert_value(job):
         res = it.run({"gain": p[0], "qsteps": p[1], "smin": p[2], "smax": p[3], "dmin": p[4], "dmax": p[5], "vmax": p[6], "value": v, "curve": curve})
         return ctx, v, res
 
-    # translator validation on concrete inputs (only those consistent with the bucket hint)
+    # translator validation on concrete inputs: the interpreter runs the function's AST with a concrete input (no hint is
+    # needed then: every index is concrete) and must agree with the real function
     import random
     rnd = random.Random(job.get("seed", 0))
     cand = sorted({lo, hi, (lo + hi) // 2} | {rnd.randint(lo, hi) for _ in range(30)})
+    if k is not None and p[0]:
+        around = (128 * k * 256) // p[0]
+        cand = sorted(set(cand) | {min(hi, max(lo, around + d)) for d in (-70, -1, 0, 1, 30, 64, 65, 100, 127, 128)})
     checked = 0
     for c in cand:
-        if k is not None:
-            val = min((c * p[0]) / 256, 32768)
-            if int(val / 128) != k:
-                continue
         ctx = Ctx()
-        res = Interp(ctx, convert_value, hints=hints).run({"gain": p[0], "qsteps": p[1], "smin": p[2], "smax": p[3], "dmin": p[4], "dmax": p[5], "vmax": p[6], "value": SInt(bv(c)), "curve": curve})
+        res = Interp(ctx, convert_value, hints={}).run({"gain": p[0], "qsteps": p[1], "smin": p[2], "smax": p[3], "dmin": p[4], "dmax": p[5], "vmax": p[6], "value": SInt(bv(c)), "curve": curve})
         got = z3.simplify(to_int_term(res)).as_signed_long() if is_sym(res) else int(res)
         want = convert_value(p[0], p[1], p[2], p[3], p[4], p[5], p[6], c, curve)
         checked += 1
